@@ -116,7 +116,7 @@ fuzz_campaign() {
             fi
         fi
     done
-    python3 - "$ROOT/evidence/$id.json" "$work" $targets <<'PY'
+    python3 - "${VERIF_EVIDENCE_DIR:-$ROOT/evidence}/$id.json" "$work" $targets <<'PY'
 import json, re, sys, os
 ev_path, work, targets = sys.argv[1], sys.argv[2], sys.argv[3:]
 try:
